@@ -658,7 +658,7 @@ func genC16(c *Ctx) {
 		// verification the key ever sees, for the others it comes after fresh-slice verifications
 		inplaceBlock := func() {
 			buf := append([]byte{}, pop...)
-			c.Case("pop-inplace/honest-first", "bls.verify "+ks+" "+hx(hpop)+" "+hx(buf), guard(func() string { return boolAns(crypto.BLSVerifyPOP(key.pk, buf)) }))
+			c.Case("pop-inplace/honest-first", "bls.verify "+ks+" "+hx(hpop)+" "+hx(buf), stable3(func() string { return boolAns(crypto.BLSVerifyPOP(key.pk, buf)) }))
 			pk2, _ := crypto.DecodePublicKey(crypto.BLSBLS12381, pkb)
 			inplace := [][]byte{flipBit(pop, 200), crypto.BLSInvalidSignature()}
 			for _, tag := range tags[:4] {
@@ -671,24 +671,24 @@ func genC16(c *Ctx) {
 				if i%2 == 1 && pk2 != nil {
 					pk = pk2
 				}
-				c.Case("pop-inplace/overwritten", "bls.verify "+ks+" "+hx(hpop)+" "+hx(buf), guard(func() string { return boolAns(crypto.BLSVerifyPOP(pk, buf)) }))
+				c.Case("pop-inplace/overwritten", "bls.verify "+ks+" "+hx(hpop)+" "+hx(buf), stable3(func() string { return boolAns(crypto.BLSVerifyPOP(pk, buf)) }))
 				copy(buf, pop)
-				c.Case("pop-inplace/restored", "bls.verify "+ks+" "+hx(hpop)+" "+hx(buf), guard(func() string { return boolAns(crypto.BLSVerifyPOP(pk, buf)) }))
+				c.Case("pop-inplace/restored", "bls.verify "+ks+" "+hx(hpop)+" "+hx(buf), stable3(func() string { return boolAns(crypto.BLSVerifyPOP(pk, buf)) }))
 			}
 		}
 		if ki%2 == 0 {
 			inplaceBlock()
 		}
-		c.Case("pop-verify-honest", "bls.verify "+ks+" "+hx(hpop)+" "+hx(pop), guard(func() string { return boolAns(crypto.BLSVerifyPOP(key.pk, pop)) }))
+		c.Case("pop-verify-honest", "bls.verify "+ks+" "+hx(hpop)+" "+hx(pop), stable3(func() string { return boolAns(crypto.BLSVerifyPOP(key.pk, pop)) }))
 		// wrong key
 		other := keys[(ki+1)%len(keys)]
 		ohp := hashPoint(other.pk.Encode(), ph)
-		c.Case("pop-other-key", "bls.verify 0x"+other.k.Text(16)+" "+hx(ohp)+" "+hx(pop), guard(func() string { return boolAns(crypto.BLSVerifyPOP(other.pk, pop)) }))
+		c.Case("pop-other-key", "bls.verify 0x"+other.k.Text(16)+" "+hx(ohp)+" "+hx(pop), stable3(func() string { return boolAns(crypto.BLSVerifyPOP(other.pk, pop)) }))
 		// candidate strings
 		for _, cc := range sortedCands(c.candidateSigs(pop, hpop, 4)) {
 			class, cands := cc.class, cc.cands
 			for _, cand := range cands {
-				c.Case("pop-candidate/"+class, "bls.verify "+ks+" "+hx(hpop)+" "+hx(cand), guard(func() string { return boolAns(crypto.BLSVerifyPOP(key.pk, cand)) }))
+				c.Case("pop-candidate/"+class, "bls.verify "+ks+" "+hx(hpop)+" "+hx(cand), stable3(func() string { return boolAns(crypto.BLSVerifyPOP(key.pk, cand)) }))
 			}
 		}
 		if ki%2 == 1 {
@@ -698,12 +698,12 @@ func genC16(c *Ctx) {
 		for _, tag := range tags {
 			th := crypto.NewExpandMsgXOFKMAC128(tag)
 			sig, _ := key.sk.Sign(pkb, th)
-			c.Case("sig-as-pop", "bls.verify "+ks+" "+hx(hpop)+" "+hx(sig), guard(func() string { return boolAns(crypto.BLSVerifyPOP(key.pk, sig)) }))
+			c.Case("sig-as-pop", "bls.verify "+ks+" "+hx(hpop)+" "+hx(sig), stable3(func() string { return boolAns(crypto.BLSVerifyPOP(key.pk, sig)) }))
 			c.Case("pop-as-sig", "bls.verify "+ks+" "+hx(hashPoint(pkb, th))+" "+hx(pop), guard(func() string { return boolAns(key.pk.Verify(pop, pkb, th)) }))
 			// domain separation stated outright (the model only sees the hash points the implementation's hashers produce):
 			// under no application tag is a signature of the key bytes a PoP, nor the PoP a signature, and the two
 			// hash-to-curve images of the key bytes differ
-			c.Case("sig-as-pop-direct", "expect false #", guard(func() string { return boolAns(crypto.BLSVerifyPOP(key.pk, sig)) }))
+			c.Case("sig-as-pop-direct", "expect false #", stable3(func() string { return boolAns(crypto.BLSVerifyPOP(key.pk, sig)) }))
 			c.Case("pop-as-sig-direct", "expect false #", guard(func() string { return boolAns(key.pk.Verify(pop, pkb, th)) }))
 			c.Case("pop-hash-point-distinct", "expect true #", fmt.Sprint(!bytes.Equal(hashPoint(pkb, th), hpop) && !bytes.Equal(sig, pop)))
 		}
@@ -713,7 +713,7 @@ func genC16(c *Ctx) {
 	pop0, _ := crypto.BLSGeneratePOP(keys[0].sk)
 	for _, idk := range c.identityKeys() {
 		for _, cand := range [][]byte{inf, pop0} {
-			c.Case("pop-identity-key", "expect false #", guard(func() string { return boolAns(crypto.BLSVerifyPOP(idk, cand)) }))
+			c.Case("pop-identity-key", "expect false #", stable3(func() string { return boolAns(crypto.BLSVerifyPOP(idk, cand)) }))
 		}
 	}
 	// the proof of possession GENERATED by an aggregated private key whose scalar is zero never verifies under its own
@@ -775,7 +775,7 @@ func genC17(c *Ctx) {
 		c.Case("prove-is-sign", fmt.Sprintf("sig.expect 0x%s %s", k1.Text(16), hx(hp)), "ok "+hx(p1))
 		emit := func(class string, a *big.Int, pa crypto.PublicKey, x []byte, b *big.Int, pb crypto.PublicKey, y []byte) {
 			line := fmt.Sprintf("spock 0x%s %s 0x%s %s", a.Text(16), hx(x), b.Text(16), hx(y))
-			c.Case(class, line, guard(func() string { return boolAns(crypto.SPOCKVerify(pa, x, pb, y)) }))
+			c.Case(class, line, stable3(func() string { return boolAns(crypto.SPOCKVerify(pa, x, pb, y)) }))
 		}
 		emit("honest", k1, pk1, p1, k2, pk2, p2)
 		emit("swapped-pairs", k2, pk2, p2, k1, pk1, p1)
@@ -832,8 +832,8 @@ func genC17(c *Ctx) {
 		emit("identity-key-2", k1, pk1, p1, zero, idk, inf)
 		emit("identity-both", zero, idk, inf, zero, idk, inf)
 		// SPOCKVerifyAgainstData = Verify
-		c.Case("against-data", fmt.Sprintf("bls.verify 0x%s %s %s", k1.Text(16), hx(hp), hx(p1)), guard(func() string { return boolAns(crypto.SPOCKVerifyAgainstData(pk1, p1, data, h)) }))
-		c.Case("against-other-data", fmt.Sprintf("bls.verify 0x%s %s %s", k1.Text(16), hx(hashPoint(otherData, h)), hx(p1)), guard(func() string { return boolAns(crypto.SPOCKVerifyAgainstData(pk1, p1, otherData, h)) }))
+		c.Case("against-data", fmt.Sprintf("bls.verify 0x%s %s %s", k1.Text(16), hx(hp), hx(p1)), stable3(func() string { return boolAns(crypto.SPOCKVerifyAgainstData(pk1, p1, data, h)) }))
+		c.Case("against-other-data", fmt.Sprintf("bls.verify 0x%s %s %s", k1.Text(16), hx(hashPoint(otherData, h)), hx(p1)), stable3(func() string { return boolAns(crypto.SPOCKVerifyAgainstData(pk1, p1, otherData, h)) }))
 	}
 	// call histories on one OS thread (state kept between calls - a cache of the last accepted proof, say - must not leak
 	// from a rejected call into the next one): accepted, rejected at the same position, then the accepted proof again
@@ -858,7 +858,7 @@ func genC17(c *Ctx) {
 				bads := [][]byte{badG1, offCurve, crypto.BLSInvalidSignature(), a1[:47]}
 				emit := func(class string, x, y []byte) {
 					line := fmt.Sprintf("spock 0x%s %s 0x%s %s", k1.Text(16), hx(x), k2.Text(16), hx(y))
-					c.Case("history/"+class, line, guard(func() string { return boolAns(crypto.SPOCKVerify(pk1, x, pk2, y)) }))
+					c.Case("history/"+class, line, stable3(func() string { return boolAns(crypto.SPOCKVerify(pk1, x, pk2, y)) }))
 				}
 				emit("accepted", a1, a2)
 				emit("rejected-position-1", bads[it%len(bads)], a2)
